@@ -13,6 +13,8 @@ let err_name = function
 
 let verdict case impl =
   match case, impl with
+  (* a panic of the implementation inside the quantifier is a property failure, not a mismatch *)
+  | (("S" | "I" | "D" | "P") :: _), ["panic"] -> "viol implementation-panicked"
   | ["S"; n; msb; t], [obs] ->
     let n = n_of_hex n and msb = n_of_hex msb and t = z_of_hex t in
     let m = shard_of n msb t in
